@@ -555,7 +555,7 @@ func (p *jsonPathParser) _createBasicCompareQuery(
 
 func (p *jsonPathParser) pushCompareEQ(
 	leftParam, rightParam *syntaxBasicCompareParameter) {
-	if leftParam.isLiteral {
+	if p.needsOperandSwap(leftParam, rightParam) {
 		rightParam, leftParam = leftParam, rightParam
 	}
 
